@@ -195,6 +195,7 @@ var mcPrograms = map[string]struct {
 	"B": {1, map[string][]string{"p1": {"g1", "g1", "g1"}, "p2": {"g1"}}, 1, 1},
 	"C": {3, map[string][]string{"p1": {"g1", "g2"}, "p2": {"g2", "g1"}}, 0, 2},
 	"D": {1, map[string][]string{"p1": {"g1", "g2", "g2"}, "p2": {"g2", "g1"}}, 0, 2},
+	"E": {1, map[string][]string{"p1": {"g1", "g2"}, "p2": {"g2", "g1"}}, 0, 2},
 }
 
 var subKinds = []string{"with", "withres", "withgroup", "get", "call"}
@@ -314,7 +315,7 @@ func Run(c *core.Ctx) {
 	add := func(j Job) { j.ID = len(jobs); jobs = append(jobs, j) }
 
 	// (leads) counterexamples of the model WITHOUT the repairs are schedules worth trying on the real code
-	for _, k := range []string{"ALead", "BLead", "CLead"} {
+	for _, k := range []string{"ALead", "BLead", "CLead", "ELead"} {
 		r, err := core.RunTLC(core.TLCOpts{Module: "MCSched", Cfg: "MCSched" + k + ".cfg", Timeout: 3 * time.Minute})
 		if err != nil || r == nil {
 			continue
